@@ -504,6 +504,7 @@ func (e *Exec) discover(fr *frame, li *loopInfo, pre *State) *modset {
 }
 
 func (e *Exec) havocMods(st *State, ms *modset) {
+	e.approx++
 	if ms.all {
 		for k := range st.Heaps {
 			delete(st.Heaps, k)
